@@ -2,7 +2,7 @@
    Together with RG.Regex.FastPath.spec_select_equiv this gives fast_path_equiv for the current source. *)
 From Coq Require Import List ZArith Lia Bool Arith.
 From RG.Base Require Import Outcome GoSlice.
-From RG.Regex Require Import Utf8 Regex FastPath GoOps.
+From RG.Regex Require Import Utf8 Regex FastPath GoOps Matcher.
 From RGW Require Import Gen_Textmatch.
 Import ListNotations.
 Local Open Scope Z_scope.
@@ -109,6 +109,18 @@ Proof.
   split; (eapply iff_trans; [apply eq_true_iff_l|exact H]).
   - apply gen_match_bytes_is_spec.
   - apply gen_match_string_is_spec.
+Qed.
+
+(* the same statement with an executable right-hand side: the matcher answers exactly what the (proved correct)
+   reference matcher for the relation answers on the decoded input *)
+Lemma gen_fast_path_is_searchb s re mt :
+  parses_to s re -> gen_compileOptimized s re = Ok (Some mt) ->
+  forall b, bytes_ok b ->
+    gen_match_bytes pred_fn mt b = searchb fold_rel re (decode b) /\
+    gen_match_string pred_fn mt b = searchb fold_rel re (decode b).
+Proof.
+  intros Hp Hs b Hb. destruct (gen_fast_path_equiv s re mt Hp Hs b Hb) as [H1 H2].
+  split; apply Bool.eq_true_iff_eq; rewrite searchb_correct; assumption.
 Qed.
 End Equiv.
 
